@@ -117,7 +117,7 @@ int cp_bdpe_enc(uint8_t *out, size_t *out_len, dig_t in, const bdpe_t pub) {
 
 	size = bn_size_bin(pub->n);
 
-	if (in > pub->t) {
+	if (in >= pub->t) {
 		return RLC_ERR;
 	}
 
